@@ -25,12 +25,24 @@ class Gateway:
     def argv(self):
         s = self.site
         a = [self.binary, "-p", "127.0.0.1:%d" % self.port, "-a", s.root_access, "-s", s.root_secret, "-q"]
+        if s.cfg.get("tls"):
+            crt, key = os.path.join(s.base, "tls.crt"), os.path.join(s.base, "tls.key")
+            if not os.path.exists(crt):
+                subprocess.run(["openssl", "req", "-x509", "-newkey", "rsa:2048", "-nodes", "-keyout", key, "-out", crt, "-days", "2", "-subj", "/CN=127.0.0.1",
+                                "-addext", "subjectAltName=IP:127.0.0.1"], check=True, stdout=subprocess.DEVNULL, stderr=subprocess.DEVNULL)
+            a += ["--cert", crt, "--key", key]
         if s.cfg.get("iam", True):
             a += ["--iam-dir", s.iamdir]
         if s.cfg.get("readonly"):
             a += ["--readonly"]
         a += self.global_args
         a += ["posix"]
+        if s.cfg.get("backend") == "s3":
+            # the S3 proxy backend: cfg["s3"] = dict(endpoint=..., access=..., secret=...)
+            b = s.cfg["s3"]
+            a[-1] = "s3"
+            a += ["--endpoint", b["endpoint"], "--access", b.get("access", "root"), "--secret", b.get("secret", "rootsecret"), "--ssl-skip-verify"]
+            return a
         if s.cfg.get("versioning"):
             a += ["--versioning-dir", s.verdir]
         if s.cfg.get("meta") == "sidecar":
@@ -55,7 +67,11 @@ class Gateway:
             try:
                 # an HTTP exchange, not just a TCP connect: a connect to a port of the ephemeral range on which nobody listens
                 # yet can succeed as a TCP self-connection
-                c = http.client.HTTPConnection("127.0.0.1", self.port, timeout=0.5)
+                if self.site.cfg.get("tls"):
+                    import ssl
+                    c = http.client.HTTPSConnection("127.0.0.1", self.port, timeout=0.5, context=ssl._create_unverified_context())
+                else:
+                    c = http.client.HTTPConnection("127.0.0.1", self.port, timeout=0.5)
                 c.request("GET", "/")
                 r = c.getresponse(); r.read(); c.close()
                 if r.status > 0:
